@@ -52,13 +52,14 @@ def confirm(src, sid, prop, demo_dir, checks):
             n = "zz_seed_" + os.path.basename(f)
             shutil.copy(f, os.path.join(target, n)); names.append(n)
         pkg = "./" + demo_dir if demo_dir not in (".", "") else "."
-        rc0, out0 = sh(["go", "test", "-vet=off", "-count=1", pkg], repo)
+        flags = os.environ.get("SEED_DEMO_FLAGS", "").split()
+        rc0, out0 = sh(["go", "test", "-vet=off", "-count=1"] + flags + [pkg], repo)
         if rc0 != 0:
             print("REJECT: demonstration does not pass on the unchanged tree\n" + out0[-1500:]); return 1
         rc, out = sh(["git", "apply", "--whitespace=nowarn", os.path.abspath(os.path.join(src, "patch.diff"))], repo)
         if rc != 0:
             print("REJECT: patch does not apply\n" + out); return 1
-        rc1, out1 = sh(["go", "test", "-vet=off", "-count=1", pkg], repo)
+        rc1, out1 = sh(["go", "test", "-vet=off", "-count=1"] + flags + [pkg], repo)
         if rc1 == 0:
             print("REJECT: demonstration still passes with the change"); return 1
         for n in names:
@@ -84,7 +85,7 @@ def confirm(src, sid, prop, demo_dir, checks):
         env = dict(ENV, VERIF_REPO=repo, VERIF_TMP=d)
         res = run_checks(checks or [prop], env)
         meta = {"seed": sid, "breaks_property": prop, "origin": "independent sub-agent given only the property text and a scratch worktree",
-                "demo": {"files": [os.path.basename(f) + ".txt" for f in demos], "place_in": demo_dir, "command": "go test -vet=off -count=1 " + pkg,
+                "demo": {"files": [os.path.basename(f) + ".txt" for f in demos], "place_in": demo_dir, "command": "go test -vet=off -count=1 " + " ".join(flags + [pkg]),
                          "fails_with_change": True, "passes_without": True},
                 "confirmed": {"applies": True, "builds_and_vets": True, "existing_suite_passes": True, "at_repo_commit": sh(["git", "-C", "/repo", "log", "--format=%h", "-1"], ROOT)[1].strip()},
                 "checks_on_scratch_copy": res}
